@@ -15,6 +15,8 @@ pub use nth_child::{
   verif_hooks as nth_child_hooks, NthChildSimple, SerializableNthChild as HookNthChild,
 };
 #[cfg(feature = "verif-hooks")]
+pub use range::verif_hooks as range_hooks;
+#[cfg(feature = "verif-hooks")]
 #[doc(hidden)]
 pub use range::SerializableRange as HookRange;
 #[cfg(feature = "verif-hooks")]
